@@ -860,3 +860,96 @@ Proof.
   intros H. destruct (check_seq_K _ _ _ _ H) as [k' Hk].
   exists (k_aq k'). eapply (K_seq_sound l k_init k' []); [reflexivity|exact Hk].
 Qed.
+
+(** * The sequential model of [Next] (mode E) inside the transition system
+
+    Every outcome [next_seq] allows is produced by a schedule of consumer steps
+    alone; "hang" is the consumer parked with no enabled case. *)
+
+Definition cons_label (l : label) : Prop := l = LC \/ exists b, l = LSel b.
+
+Definition next_outcome (r : nres) (s' : lstate) : Prop :=
+  match r with
+  | NHang => l_cp s' = CWait /\ (forall b, lstep s' (LSel b) = None)
+  | _ => l_cp s' = CIdle /\ exists pre, l_hist s' = ERetNext r :: pre
+  end.
+
+Lemma run_cons s l sch : run lstep s (l :: sch) = match lstep s l with Some s1 => run lstep s1 sch | None => None end.
+Proof. reflexivity. Qed.
+
+Lemma next_some_step s i d q1 :
+  l_cp s = CIdle \/ l_cp s = CTry -> locked_next (l_q s) = Some (i, d, q1) ->
+  exists s', lstep s LC = Some s' /\ l_cp s' = CIdle /\ l_q s' = q1 /\
+             exists pre, l_hist s' = ERetNext (NItem i d) :: pre.
+Proof.
+  intros Hcp En. cbn. unfold cons_next.
+  destruct Hcp as [E|E]; rewrite E, En; eexists; (split; [reflexivity|]); cbn; eauto.
+Qed.
+
+Theorem next_seq_in_lts fuel c : forall s q' r,
+  l_cp s = CIdle \/ l_cp s = CTry ->
+  l_cancelled s = ctx_fires c ->
+  In (q', r) (next_seq fuel c (l_q s)) ->
+  exists sch s', run lstep s sch = Some s' /\ Forall cons_label sch /\ l_q s' = q' /\ next_outcome r s'.
+Proof.
+  assert (HLC : cons_label LC) by (left; reflexivity).
+  assert (HLS : forall b, cons_label (LSel b)) by (intros b; right; eauto).
+  induction fuel as [|f IH]; intros s q' r Hcp Hca Hin.
+  - (* no fuel: only the immediate pop *)
+    cbn in Hin. destruct (locked_next (l_q s)) as [[[i d] q1]|] eqn:En; [|contradiction].
+    destruct Hin as [Hin|[]]. inversion Hin; subst.
+    destruct (next_some_step s _ _ _ Hcp En) as (s' & Hs & Hc & Hq & Hh).
+    exists [LC], s'. split; [rewrite run_cons, Hs; reflexivity|].
+    split; [repeat (apply Forall_cons; [auto|]); apply Forall_nil|]. split; [assumption|]. split; assumption.
+  - cbn [next_seq] in Hin. destruct (locked_next (l_q s)) as [[[i d] q1]|] eqn:En.
+    + destruct Hin as [Hin|[]]. inversion Hin; subst.
+      destruct (next_some_step s _ _ _ Hcp En) as (s' & Hs & Hc & Hq & Hh).
+      exists [LC], s'. split; [rewrite run_cons, Hs; reflexivity|].
+      split; [repeat (apply Forall_cons; [auto|]); apply Forall_nil|]. split; [assumption|]. split; assumption.
+    + (* first step: to the select *)
+      destruct (next_none_waits s Hcp En) as (s1 & Hs1 & Hw1 & Hq1).
+      assert (Hca1 : l_cancelled s1 = ctx_fires c).
+      { rewrite <- Hca. clear - Hs1 Hcp En. cbn in Hs1. unfold cons_next in Hs1.
+        destruct Hcp as [E|E]; rewrite E, En in Hs1; inversion Hs1; reflexivity. }
+      destruct (negb (ctx_fires c || q_token (l_q s) || q_closed (l_q s))) eqn:Er.
+      * (* nothing ready *)
+        destruct Hin as [Hin|[]]. inversion Hin; subst.
+        apply negb_true_iff in Er. apply orb_false_iff in Er. destruct Er as [Er Hcl].
+        apply orb_false_iff in Er. destruct Er as [Hcf Htk].
+        exists [LC], s1. split; [rewrite run_cons, Hs1; reflexivity|].
+        split; [repeat (apply Forall_cons; [auto|]); apply Forall_nil|]. split; [assumption|].
+        split; [assumption|]. intros b. cbn. rewrite Hw1, Hq1, Hca1, Hcf, Htk, Hcl.
+        destruct b; reflexivity.
+      * apply in_app_or in Hin. destruct Hin as [Hin|Hin].
+        { (* ctx *)
+          destruct (ctx_fires c) eqn:Ecf; [|contradiction]. destruct Hin as [Hin|[]]. inversion Hin; subst.
+          exists [LC; LSel SCtx]. eexists. split; [|split; [repeat (apply Forall_cons; [auto|]); apply Forall_nil|]].
+          - rewrite run_cons, Hs1. cbn. rewrite Hw1, Hca1. reflexivity.
+          - cbn. split; [solve [assumption|reflexivity]|]. split; eauto. }
+        apply in_app_or in Hin. destruct Hin as [Hin|Hin].
+        { (* token *)
+          destruct (q_token (l_q s)) eqn:Et; [|contradiction].
+          assert (Hs2 : lstep s1 (LSel STok) =
+                        Some (mkL (take_token (l_q s1)) (l_pp s1) CTry (l_cancelled s1) (l_hist s1))).
+          { cbn. rewrite Hw1, Hq1, Et. reflexivity. }
+          destruct (IH (mkL (take_token (l_q s1)) (l_pp s1) CTry (l_cancelled s1) (l_hist s1)) q' r)
+            as (sch & s' & Hrun & Hall & Hq & Hout); cbn; auto.
+          { rewrite Hq1. exact Hin. }
+          exists (LC :: LSel STok :: sch), s'. split; [|split; [repeat (apply Forall_cons; [auto|]); assumption|auto]].
+          rewrite run_cons, Hs1, run_cons, Hs2. exact Hrun. }
+        (* closed *)
+        destruct (q_closed (l_q s)) eqn:Ecl; [|contradiction].
+        assert (Hs2 : lstep s1 (LSel SClosed) =
+                      Some (mkL (l_q s1) (l_pp s1) CLen (l_cancelled s1) (l_hist s1))).
+        { cbn. rewrite Hw1, Hq1, Ecl. reflexivity. }
+        destruct (Nat.eqb (q_len (l_q s)) 0) eqn:El.
+        { destruct Hin as [Hin|[]]. inversion Hin; subst.
+          exists [LC; LSel SClosed; LC]. eexists. split; [|split; [repeat (apply Forall_cons; [auto|]); apply Forall_nil|]].
+          - rewrite run_cons, Hs1, run_cons, Hs2. cbn. rewrite Hq1, El. reflexivity.
+          - cbn. split; [solve [assumption|reflexivity]|]. split; eauto. }
+        destruct (IH (mkL (l_q s1) (l_pp s1) CTry (l_cancelled s1) (l_hist s1)) q' r)
+          as (sch & s' & Hrun & Hall & Hq & Hout); cbn; auto.
+        { rewrite Hq1. exact Hin. }
+        exists (LC :: LSel SClosed :: LC :: sch), s'. split; [|split; [repeat (apply Forall_cons; [auto|]); assumption|auto]].
+        rewrite run_cons, Hs1, run_cons, Hs2, run_cons. cbn [lstep l_cp l_q]. rewrite Hq1, El. exact Hrun.
+Qed.
